@@ -577,7 +577,7 @@ impl Xot {
         if !self.is_element(node) {
             return Err(Error::NotElement(node));
         };
-        let mut fullname_serializer = FullnameSerializer::new(self, vec![]);
+        let mut fullname_serializer = FullnameSerializer::new(self, self.base_prefixes().into_iter().collect());
         let mut missing_namespace_ids = HashSet::default();
         for edge in self.traverse(node) {
             match edge {
@@ -673,7 +673,7 @@ impl Xot {
     /// # Ok::<(), xot::Error>(())
     /// ```
     pub fn deduplicate_namespaces(&mut self, node: Node) {
-        let mut fullname_serializer = FullnameSerializer::new(self, vec![]);
+        let mut fullname_serializer = FullnameSerializer::new(self, self.base_prefixes().into_iter().collect());
         let mut fixup_nodes = Vec::new();
         let mut deduplicate_tracker = DeduplicateTracker::new();
         // determine nodes we need to fix up
@@ -756,7 +756,7 @@ impl Xot {
     /// defined for them in the context of the node are reported.
     pub fn unresolved_namespaces(&self, node: Node) -> Vec<NamespaceId> {
         let mut namespaces = Vec::new();
-        let mut fullname_serializer = FullnameSerializer::new(self, vec![]);
+        let mut fullname_serializer = FullnameSerializer::new(self, self.base_prefixes().into_iter().collect());
         for edge in self.traverse(node) {
             match edge {
                 NodeEdge::Start(node) => {
